@@ -5320,6 +5320,18 @@ class PyCdlib:
                         new_list.append((linkrec, is_pvd))
                 entry.inode.linked_records = new_list
 
+                if not new_list:
+                    # This entry was the last reference to the boot file (its
+                    # names were removed with rm_hard_link), so the data goes
+                    # away as well.
+                    for index, ino in enumerate(self.inodes):
+                        if id(ino) == id(entry.inode):
+                            del self.inodes[index]
+                            # (in whole blocks, since the sizes removed
+                            # here are summed up before being rounded)
+                            num_bytes_to_remove += utils.ceiling_div(entry.inode.get_data_length(), self.logical_block_size) * self.logical_block_size
+                            break
+
         num_bytes_to_remove += len(self.eltorito_boot_catalog.record())
 
         self.eltorito_boot_catalog = None
